@@ -184,3 +184,61 @@ fn c02_store_write_step() {
     kani::cover!(op == 2 && a[t].present && a[t].expiry.is_some(), "delete of a TTL key");
     core::mem::forget(s);
 }
+
+// ---- guard-held races at store level (P4): "skip when busy" defects
+static mut R_STORE: *const Store<u64, u64> = core::ptr::null();
+static mut R_MARK_RETURNED: bool = false;
+static mut R_PRESENT: Option<bool> = None;
+fn interfering_mark_deleted(_site: u32) { unsafe { (&*R_STORE).mark_deleted(&key_of(1)); R_MARK_RETURNED = true; } }
+fn interfering_is_present(_site: u32) { unsafe { R_PRESENT = Some((&*R_STORE).is_present(&key_of(1))); } }
+
+/// C04 / P4: another thread marks key k deleted (the caller-side half of `delete`) while THIS thread holds a
+/// `get_ref` guard on k.  If that call returns while the guard is still held, the entry must carry the mark: the
+/// delete must not "succeed" by skipping its mark because the shard was busy.  (A call that waits for the guard is
+/// an infeasible placement in the lock model, so on code that waits there is nothing to observe and the harness passes.)
+#[kani::proof]
+#[kani::unwind(6)]
+fn c04_mark_deleted_while_reader_holds_guard() {
+    let stats = stk::vk_fresh();
+    let a = [shaped_entry(1, true, true), shaped_entry(2, true, false), shaped_entry(3, false, false)];
+    kani::assume(!a[1].soft_deleted);
+    let s = vk_store(stats.clone());
+    vk_place_entries(&s, &a);
+    sup::set_now(0, 0);
+    unsafe { R_STORE = &*s as *const Store<u64, u64>; R_MARK_RETURNED = false; }
+    let guard = s.get_ref(&key_of(1));
+    assert!(guard.is_some(), "C02: a live key without TTL is readable");
+    vs::set_hook(interfering_mark_deleted, 1);
+    drop(guard);                                   // the guard's release is the schedule point: the other thread runs while it is still held
+    vs::clear_hook();
+    if unsafe { R_MARK_RETURNED } && vs::fired() == 1 {
+        assert!(vk_peek(&s, &key_of(1)).map(|v| svk::vk_soft_deleted(v)).unwrap_or(false), "C04: once the deleting call has returned the key is hidden (marked) - even if a reader held a reference while it ran");
+        assert!(s.get(&key_of(1)).is_none(), "C04: ... and no later read returns it");
+    }
+    kani::cover!(vs::fired() == 1, "opt: the marking call returned while the reader still held its guard (infeasible when it waits)");
+    kani::cover!(true, "end reached");
+    core::mem::forget(s);
+}
+
+/// C07 / P4: another thread runs the existence check of `put` for a READABLE key k while this thread is inside an
+/// in-place update of k (write guard held across the clock call).  If the check returns at all it must say "present":
+/// it must not report "absent" because it could not look at a busy shard.
+#[kani::proof]
+#[kani::unwind(6)]
+fn c07_existence_check_while_writer_holds_guard() {
+    let stats = stk::vk_fresh();
+    let a = [shaped_entry(1, true, true), shaped_entry(2, true, false), shaped_entry(3, false, false)];
+    let s = vk_store(stats.clone());
+    vk_place_entries(&s, &a);
+    sup::set_now(100, 0);
+    unsafe { R_STORE = &*s as *const Store<u64, u64>; R_PRESENT = None; }
+    vs::set_hook(interfering_is_present, 1);
+    let r = s.update(&key_of(1), None, Some(Duration::from_secs(30)), false);
+    vs::clear_hook();
+    assert!(r.did_update_happen(), "C08: the held key is updated in place");
+    if let Some(p) = unsafe { R_PRESENT } {
+        assert!(p, "C07: the existence check of put reports a held, readable key as present whatever else is going on with that key");
+    }
+    kani::cover!(unsafe { R_PRESENT.is_some() }, "the racing existence check returned (before or after the update)");
+    core::mem::forget(s);
+}
